@@ -22,7 +22,20 @@ MAKEPATH = dict(
                "CostDirectionS": ("(4 : Nat)", "Nat"), "CostDirectionW": ("(8 : Nat)", "Nat")},
 )
 
-JOBS = {"geometry": GEOMETRY, "makepath": MAKEPATH}
+_SD = ["east", "south", "west", "north", "right", "down", "left", "up"]
+SEPDIR = dict(
+    src="cola/libdialect/constraints.cpp",
+    ns="AdaptaVerif.Gen.SepDir",
+    out="lean/AdaptaVerif/Gen/SepDir.lean",
+    imports=["AdaptaVerif.Model.Sep"],
+    opens=["AdaptaVerif.Model.Sep (SepDir)"],
+    functions=["negateSepDir", "sepDirIsCardinal", "lateralWeakening", "cardinalStrengthening"],
+    types={"SepDir": "SepDir"},
+    enums={n.upper(): ("SepDir." + n, "SepDir") for n in _SD},
+    enum_ctors={"SepDir": ["SepDir." + n for n in _SD]},
+)
+
+JOBS = {"geometry": GEOMETRY, "makepath": MAKEPATH, "sepdir": SEPDIR}
 
 def regenerate(names, ROOT, REPO):
     info = {}
